@@ -221,3 +221,33 @@ Example ex_dns_process_request :
   dns_process_request rpcfg_plain (mk_oracle tab0 true) (Some w_nopayload) = Ok true /\
   dns_process_request rpcfg_plain (mk_oracle tab0 true) None = Err EUnmarshal.
 Proof. split; vm_compute; reflexivity. Qed.
+
+(* ---- second wave: downstream *)
+Definition ireg0 : ireg :=
+  {| ir_nil := false; ir_keys := Some (repeat 7 32); ir_phantom := Some v4ip; ir_source := Some 1; ir_transport_known := true;
+     ir_prescanned := false; ir_has_c2s := true; ir_c2s_v4 := true; ir_connecting := Some (PDtls (Some {| d_rand := None |})) |}.
+Definition io0 : ioracle := {| io_blocklisted := false; io_exists := false; io_covert_ok := true; io_live := false; io_share := true |}.
+Example ex_ingest_added : ingest_registration ireg0 io0 = Ok (IAdded true (Some (Ok tt))).
+Proof. vm_compute. reflexivity. Qed.
+Example ex_ingest_live_dropped :
+  ingest_registration ireg0 {| io_blocklisted := false; io_exists := false; io_covert_ok := true; io_live := true; io_share := true |} = Ok (IDropped 6).
+Proof. vm_compute. reflexivity. Qed.
+(* ValidateRegistration is what makes the later dereferences safe: String() on a registration without keys panics *)
+Example ex_reg_string_nil_keys_panics :
+  reg_string {| ir_nil := false; ir_keys := None; ir_phantom := Some v4ip; ir_source := Some 1; ir_transport_known := true;
+                ir_prescanned := false; ir_has_c2s := false; ir_c2s_v4 := false; ir_connecting := None |} = Panic.
+Proof. reflexivity. Qed.
+Example ex_ingest_nil_keys_dropped :
+  ingest_registration {| ir_nil := false; ir_keys := None; ir_phantom := Some v4ip; ir_source := Some 1; ir_transport_known := true;
+                         ir_prescanned := false; ir_has_c2s := false; ir_c2s_v4 := false; ir_connecting := None |} io0 = Ok (IDropped 1).
+Proof. reflexivity. Qed.
+(* Connect is NOT safe on a typed-nil parameter pointer; ParseParams never produces one *)
+Example ex_dtls_connect_typed_nil_panics : dtls_connect_params (PDtls None) = Panic.
+Proof. reflexivity. Qed.
+Example ex_dtls_connect_wrong_type : dtls_connect_params PNil = Err EParams.
+Proof. reflexivity. Qed.
+Example ex_worker : worker stcfg0 sto0 (Some w0) {| io_blocklisted := false; io_exists := false; io_covert_ok := true; io_live := true; io_share := false |} = Ok (1, 0).
+Proof. vm_compute. reflexivity. Qed.     (* the IPv4 phantom answers a probe: only the IPv6 registration is announced *)
+(* work bounds are met with equality on some inputs *)
+Example ex_prefix_iters : prefix_loop_iters (fun _ => None) (repeat 9 70) tbl0 = 2%nat.
+Proof. vm_compute. reflexivity. Qed.
